@@ -32,7 +32,7 @@ pub struct AllocCounters {
     pub deallocs: u64,
     pub live: u64,
     pub live_bytes: u64,
-    /// allocations in library scope while panicking (not tracked)
+    /// allocations in library scope while the thread was unwinding (tracked, but not counted as library requests)
     pub untracked_in_lib: u64,
 }
 
@@ -201,11 +201,15 @@ unsafe impl GlobalAlloc for SimAlloc {
     #[inline]
     unsafe fn alloc(&self, layout: Layout) -> *mut u8 {
         if in_lib() && ST.with(|s| s.enabled.get()) {
+            // Tracked (table, guards, fill) in every case. Only requests made while the thread is
+            // not unwinding count as "the library allocated" for the no-heap check of stack-backed
+            // vectors: the panic runtime boxes its payload while `panicking()` is already true.
             if !std::thread::panicking() {
                 ST.with(|s| (*s.c.get()).allocs += 1);
-                return tracked_alloc(layout);
+            } else {
+                ST.with(|s| (*s.c.get()).untracked_in_lib += 1);
             }
-            ST.with(|s| (*s.c.get()).untracked_in_lib += 1);
+            return tracked_alloc(layout);
         }
         System.alloc(layout)
     }
